@@ -59,6 +59,21 @@ func buildCorpus(seed int64) *concCorpus {
 	for len(cc.texts) < 320 {
 		add(g.Path(4, 2))
 	}
+	// every corpus path once more in a random spelling (spaces, quotes, integer forms, the `s:e:` slice
+	// form, rootless): different spellings run different parser actions
+	for _, p := range append(gen.SysPaths(1, 0, fnF, fnG), func() []*spec.Path {
+		var out []*spec.Path
+		for i := 0; i < 60; i++ {
+			out = append(out, g.Path(4, 2))
+		}
+		return out
+	}()...) {
+		t, _ := p.Render(gen.RandomSpelling(r))
+		if !seen[t] {
+			seen[t] = true
+			cc.texts = append(cc.texts, t)
+		}
+	}
 	cc.cfgs = []func() []jsonpath.Config{
 		func() []jsonpath.Config { return nil },
 		func() []jsonpath.Config { return []jsonpath.Config{std.Config(false)} },
@@ -99,7 +114,7 @@ func init() {
 		ID:    "C06",
 		Level: "exploration",
 		Rule: "case = one run: G in {2,4,8,16} goroutines, each a seeded mix of Parse(path, config), calls of SHARED parsed functions on SHARED read-only documents and " +
-			"Retrieve, over a corpus of ~320 paths (every step kind x function suffix, a slice of every comparison/logical shape, literal-only comparisons, random ASTs) x 3 " +
+			"Retrieve, over a corpus of ~400 paths (every step kind x function suffix, a slice of every comparison/logical shape, literal-only comparisons, random ASTs) x 3 " +
 			"configurations x 34 documents; scheduler yields injected at the Parse/evaluation hook points; executed once under the Go race detector and once without; " +
 			"judged: zero race reports with a library frame, and every operation returns exactly its sequential outcome (computed before any goroutine starts); " +
 			"non-trivial = every run (>= 2 goroutines overlap); distinct = distinct (goroutine count, seed) runs; the evidence reports operations, the maximum number of " +
@@ -107,9 +122,9 @@ func init() {
 		Assumptions: []string{"the race detector reports only races that happened on the interleavings the scheduler produced", "shared documents are never written by the harness; user functions are pure"},
 		Plan: func(tier string, seed int64) *harness.Plan {
 			var cc *concCorpus
-			ops := size(tier, 4000, 12000)
+			ops := size(tier, 3000, 12000)
 			return &harness.Plan{
-				N:           size(tier, 24, 160),
+				N:           size(tier, 16, 160),
 				Race:        true,
 				NoRaceToo:   true,
 				MaxShards:   4,
